@@ -38,6 +38,16 @@ Ptr       == 8
 MaxAmount == (Block - NodeMeta - Ptr) \div (KS + Ptr) + 1
 MinAmount == (MaxAmount - 1) \div 2 + 1
 NodeSize(nkeys) == NodeMeta + KS * nkeys + Ptr * (nkeys + 1)
+\* the division above for an arbitrary key length: a node with the maximal number of children fits its block
+\* and one more key would not, for every key length the property ranges over; the remainder of the division
+\* falls in one of three classes (no slack, less than a pointer, almost another entry) - the key lengths of
+\* the replayed families are chosen to contain all three with a small fan-out (807, 808, 809)
+CapOf(ks) == (Block - NodeMeta - Ptr) \div (ks + Ptr) + 1
+RemOf(ks) == (Block - NodeMeta - Ptr) % (ks + Ptr)
+AllKeyLengthsFit ==
+  \A ks \in 1..1000 : /\ NodeMeta + ks * (CapOf(ks) - 1) + Ptr * CapOf(ks) <= Block
+                       /\ NodeMeta + ks * CapOf(ks) + Ptr * (CapOf(ks) + 1) > Block
+RemainderClassesCovered == RemOf(808) = 0 /\ RemOf(807) \in 1..(Ptr - 1) /\ RemOf(809) >= 809
 
 N == Len(cnt)
 Key(i) == 2 * i                          \* stored keys
